@@ -209,6 +209,10 @@ func c16Start(snapshot, ucoal, mcoal bool) (*c16Node, error) {
 	conf.LogOutput = io.Discard
 	conf.NodeName = "self"
 	conf.Tags = map[string]string{"role": "0"}
+	// handlePrune sleeps BroadcastTimeout+LeavePropagateDelay for a leaving member, and a local
+	// force-leave waits BroadcastTimeout for a broadcast nobody will take: keep both short
+	conf.BroadcastTimeout = 5 * time.Millisecond
+	conf.LeavePropagateDelay = time.Millisecond
 	conf.EventCh = n.evCh
 	if mcoal {
 		conf.CoalescePeriod = 8 * time.Millisecond
@@ -244,6 +248,16 @@ func c16Start(snapshot, ucoal, mcoal bool) (*c16Node, error) {
 	}
 	n.s = s
 	return n, nil
+}
+
+// nextLTime: a Lamport time newer than anything the node has seen (its own force-leave messages
+// are stamped with its clock, so the harness counter alone could fall behind).
+func (n *c16Node) nextLTime() uint64 {
+	if t, err := strconv.ParseUint(n.s.Stats()["member_time"], 10, 64); err == nil && t > n.ltime {
+		n.ltime = t
+	}
+	n.ltime++
+	return n.ltime
 }
 
 func (n *c16Node) close() {
@@ -449,8 +463,7 @@ func c16Exec(ops []string) []string {
 			}
 		case f[0] == "intent" && len(f) == 2:
 			before, known := n.member(name)
-			n.ltime++
-			buf := serf.VerifEncodeLeave(n.ltime, name, false)
+			buf := serf.VerifEncodeLeave(n.nextLTime(), name, false)
 			n.conf.MemberlistConfig.Delegate.NotifyMsg(buf)
 			after, _ := n.member(name)
 			if known && before.Status == serf.StatusFailed && after.Status == serf.StatusLeft {
@@ -458,11 +471,44 @@ func c16Exec(ops []string) []string {
 			} else {
 				outs = append(outs, "emit -")
 			}
+		case (f[0] == "prune" || f[0] == "forceprune") && len(f) == 2:
+			// a leave intent with the Prune flag: gossiped, or issued locally (force-leave -prune)
+			before, known := n.member(name)
+			if f[0] == "prune" {
+				n.conf.MemberlistConfig.Delegate.NotifyMsg(serf.VerifEncodeLeave(n.nextLTime(), name, true))
+			} else {
+				_ = n.s.RemoveFailedNodePrune(name) // "timed out broadcasting" is expected: there are no real peers
+			}
+			_, still := n.member(name)
+			switch {
+			case !known:
+				outs = append(outs, "emit -")
+			case still:
+				outs = append(outs, "emit ?still-present")
+			default:
+				// the status history of the call: failed→left (a leave), then erased (a reap);
+				// alive→leaving, leaving, left: erased only
+				role := before.Tags["role"]
+				var items []string
+				code := 2
+				switch before.Status {
+				case serf.StatusFailed:
+					items = append(items, fmt.Sprintf("leave/%s/%s", hexs(name), c16Rec(role, 2)))
+				case serf.StatusAlive, serf.StatusLeaving:
+					code = 1
+				}
+				items = append(items, fmt.Sprintf("reap/%s/%s", hexs(name), c16Rec(role, code)))
+				n.emitLast[name] = "reap"
+				n.emitCount += len(items)
+				if !n.mcoal {
+					n.expM += len(items)
+				}
+				outs = append(outs, "emit "+strings.Join(items, ","))
+			}
 		case f[0] == "race" && len(f) == 4:
 			before, known := n.member(name)
 			intent := func() {
-				n.ltime++
-				n.conf.MemberlistConfig.Delegate.NotifyMsg(serf.VerifEncodeLeave(n.ltime, name, false))
+				n.conf.MemberlistConfig.Delegate.NotifyMsg(serf.VerifEncodeLeave(n.nextLTime(), name, false))
 			}
 			switch {
 			case f[2] == "fail-intent" && known && before.Status == serf.StatusAlive:
@@ -511,8 +557,7 @@ func c16Exec(ops []string) []string {
 				go func() { defer wg.Done(); ed.NotifyLeave(c16NodeOf(name, "")) }()
 				go func() {
 					defer wg.Done()
-					n.ltime++
-					n.conf.MemberlistConfig.Delegate.NotifyMsg(serf.VerifEncodeLeave(n.ltime, name, false))
+					n.conf.MemberlistConfig.Delegate.NotifyMsg(serf.VerifEncodeLeave(n.nextLTime(), name, false))
 				}()
 				wg.Wait()
 				// both handlers returned, so everything is in the pipeline; whatever the order of the two
@@ -712,7 +757,10 @@ func c16Gen(rng *rand.Rand, tier string) []Case {
 					perMember[nm]++
 				case r < 76:
 					body = append(body, "intent "+h)
-				case r < 81:
+				case r < 79:
+					body = append(body, []string{"prune ", "forceprune "}[rng.Intn(2)]+h)
+					perMember[nm]++
+				case r < 82:
 					body = append(body, fmt.Sprintf("uev %s %s %d", hexs([]string{"deploy", "x"}[rng.Intn(2)]), c18Flag(rng.Intn(2) == 0), j+1))
 				case r < 86:
 					body = append(body, fmt.Sprintf("query %d %d", rng.Intn(2), j+1))
@@ -735,6 +783,15 @@ func c16Gen(rng *rand.Rand, tier string) []Case {
 			}
 			add(c, body, nt, tag)
 		}
+	}
+	// prune: a leave intent with the Prune flag (gossiped and local) erases the member; the leave of a
+	// failed member must reach the application before its reap
+	for _, c := range cfgs {
+		a, b := hexs("a"), hexs("b")
+		add(c, []string{"join " + a + " 1", "join " + b + " 2", "wait", "leave " + a, "wait", "prune " + a, "wait",
+			"leave " + b, "forceprune " + b, "wait", "join " + a + " 3", "wait", "forceprune " + a, "wait",
+			"join " + b + " 4", "intent " + b, "prune " + b, "wait", "prune " + hexs("node c"), "join " + hexs("node c") + " 5",
+			"leave " + hexs("node c"), "prune " + hexs("node c"), "wait", "end"}, true, "prune")
 	}
 	// two goroutines on one member: a memberlist notification held just before its send + a leave intent
 	for _, c := range []cfg{{0, 0, 0}, {1, 0, 0}, {0, 0, 1}} {
